@@ -22,6 +22,7 @@ import (
 	"sync/atomic"
 	"time"
 
+	"github.com/containerd/stargz-snapshotter/util/verifhook"
 	"golang.org/x/sync/semaphore"
 )
 
@@ -74,6 +75,7 @@ func (ts *BackgroundTaskManager) DoPrioritizedTask() {
 	// Notify the prioritized task execution to background tasks.
 	ts.prioritizedTaskStartNotifyMu.Lock()
 	atomic.AddInt64(&ts.prioritizedTasks, 1)
+	verifhook.Event("task.Do", ts)
 	close(ts.prioritizedTaskStartNotify)
 	ts.prioritizedTaskStartNotify = make(chan struct{})
 	ts.prioritizedTaskStartNotifyMu.Unlock()
@@ -82,13 +84,17 @@ func (ts *BackgroundTaskManager) DoPrioritizedTask() {
 // DonePrioritizedTask tells the manager that we've done a prioritized task
 // and don't want background tasks to disturb resources(CPU, NW, etc...)
 func (ts *BackgroundTaskManager) DonePrioritizedTask() {
+	verifhook.Event("task.Done", ts)
 	go func() {
 		// Notify the task completion after `ts.prioritizedTaskSilencePeriod`
 		// so that background tasks aren't invoked immediately.
 		time.Sleep(ts.prioritizedTaskSilencePeriod)
+		verifhook.Gate("task.Decr", ts)
 		atomic.AddInt64(&ts.prioritizedTasks, -1)
+		verifhook.Gate("task.Bcast", ts)
 		ts.prioritizedTaskDoneCond.L.Lock()
 		ts.prioritizedTaskDoneCond.Broadcast()
+		verifhook.Event("task.Broadcast", ts)
 		ts.prioritizedTaskDoneCond.L.Unlock()
 	}()
 }
@@ -99,27 +105,35 @@ func (ts *BackgroundTaskManager) DonePrioritizedTask() {
 // cancelled via context.Context argument and be able to be restarted again.
 func (ts *BackgroundTaskManager) InvokeBackgroundTask(do func(context.Context), timeout time.Duration) {
 	for {
+		verifhook.Gate("task.Load", ts)
 		// Wait until all prioritized tasks are done
 		for atomic.LoadInt64(&ts.prioritizedTasks) > 0 {
+			verifhook.Gate("task.CondLock", ts)
 
 			// waits until a prioritized task is done
 			ts.prioritizedTaskDoneCond.L.Lock()
 			if atomic.LoadInt64(&ts.prioritizedTasks) > 0 {
+				verifhook.Event("task.CondWait", ts)
 				ts.prioritizedTaskDoneCond.Wait()
 			}
 			ts.prioritizedTaskDoneCond.L.Unlock()
+			verifhook.Gate("task.Load", ts)
 		}
 
 		// limited number of background tasks can run at once.
 		// if prioritized tasks are running, cancel this task.
 		if func() bool {
+			verifhook.Gate("task.Acquire", ts)
 			ts.backgroundSem.Acquire(context.Background(), 1)
 			defer ts.backgroundSem.Release(1)
+			defer verifhook.Gate("task.Release", ts)
+			verifhook.Gate("task.Decide", ts)
 
 			// Get notify the prioritized tasks execution.
 			ts.prioritizedTaskStartNotifyMu.Lock()
 			ch := ts.prioritizedTaskStartNotify
 			tasks := atomic.LoadInt64(&ts.prioritizedTasks)
+			verifhook.Event("task.Decided", ts, tasks)
 			ts.prioritizedTaskStartNotifyMu.Unlock()
 			if tasks > 0 {
 				return false
@@ -138,11 +152,14 @@ func (ts *BackgroundTaskManager) InvokeBackgroundTask(do func(context.Context), 
 			}()
 
 			// Wait until the background task is done or canceled.
+			verifhook.Gate("task.Select", ts)
 			select {
 			case <-ch: // some prioritized tasks started; retry it later
+				verifhook.Event("task.Notified", ts)
 				cancel()
 				return false
 			case <-done: // All tasks completed
+				verifhook.Event("task.BodyDone", ts)
 			}
 			return true
 		}() {
